@@ -303,7 +303,6 @@ macro_rules! lost_from_eq_harness {
 
 lost_from_eq_harness!(c01_lemma_lost_from_eq_n1, 1, [0, 1]);
 lost_from_eq_harness!(c01_lemma_lost_from_eq_n2, 2, [0, 1, 2]);
-lost_from_eq_harness!(c01_lemma_lost_from_eq_n3, 3, [0, 1, 2, 3]);
 lost_from_eq_harness!(c01_lemma_lost_from_eq_n4, 4, [0, 1, 2, 3, 4]);
 
 // ------------------------------------------------------------------------------------------------
